@@ -154,6 +154,23 @@ PROPS = {
         "size) buckets.",
         ["oc"], ["oc", "nostd"],
     ),
+    "C14": P(
+        "model_checking",
+        "Explicit-state BFS of the real Subject to a fixpoint (closed state space: histories of any length over the alphabet are "
+        "covered) for limits 0,1,2 with 2 endpoints x 2 tokens x 2 paths (34 actions), plus 3 endpoints x 3 tokens on one path; "
+        "every transition runs the real operation in lock-step with refmodel::subject and checks observer identity/order/tokens, "
+        "one-observer-per-endpoint, frame conditions on all other paths and no entry creation by rounds. distinct non-trivial = "
+        "distinct canonical states (per path ordered observers with endpoint, token, count, pending id).",
+        ["oc"], ["oc", "rel"],
+    ),
+    "C15": P(
+        "model_checking",
+        "The same closed BFS with the accounting oracle (sequence +1 per round, count per CON round, eviction exactly when count > "
+        "limit, ack by endpoint+latest id only), plus 63 directed 600-round histories at limits {0,1,2,10,127,254,255} compared "
+        "with the model after every operation, plus the create_notification product (token 0-8 x sequence byte boundaries x type "
+        "x mid x payload) against the reference codec. distinct non-trivial = distinct canonical states.",
+        ["oc", "rel"], ["oc", "rel"],
+    ),
 }
 
 
